@@ -138,6 +138,15 @@ def r2_matchers(chk, prog):
                     "under): a name like 'a/../b' would be authorised by the wrong role")
         sel = any(o.kind == "param" and o.key[1] == "self" for o in deep)
         chk.require(sel, "R2", mctx.fn, "matches-against-own-pattern", "the matcher's result does not depend on its own pattern/prefix")
+        if m == PP_MATCH:
+            # the answer of a path pattern is the answer of its compiled glob and nothing else: a hand-made
+            # shortcut (prefix / suffix test on the pattern text) decides differently at separators
+            ret = mctx.origins.of_local(0)
+            GLOB = ("globset::glob::GlobMatcher::is_match", "globset::GlobMatcher::is_match")
+            chk.require(bool(ret) and all(o.kind == "call" and (o.key[1].endswith("GlobMatcher::is_match") or is_call(o, *GLOB)) for o in ret),
+                        "R2", mctx.fn, "result-is-the-glob-match",
+                        "PathPattern::matches_target_name can answer otherwise than glob.is_match(name): %s — a shortcut such "
+                        "as name.starts_with(dir) for `dir/*` also matches `dir-other/..`" % sorted(map(repr, ret))[:3])
     chk.floor("R2", n, 2, "matchers (PathPattern, PathHashPrefix)")
 
 
